@@ -536,3 +536,89 @@ Fixpoint combI_bwd (bs : list (block * list I.type * I.type)) (lj : I.type) : li
       let (rest, l') := combI_bwd r l in (xs :: rest, l')
   end.
 End Runners.
+
+(* ======================================================================= *)
+(* Part 4: the registry (tie A skeleton): name -> class, kwargs, as regenerated from the source *)
+(* ======================================================================= *)
+From Coq Require Import String.
+Local Open Scope string_scope.
+
+Inductive kwv := KVtrue | KVfalse | KVnone | KVstr (s : string) | KVnum | KVlist | KVdict | KVother.
+Record rentry := { re_name : string; re_class : string; re_kw : list (string * kwv) }.
+
+(* what a registered entry is modelled by *)
+Inductive mkind :=
+| MKrtb (pre : prek) (post : postk) (inversion offset : bool)
+| MKscale | MKnull | MKangle | MKcart | MKpair
+| MKdist (inversion offset : bool)
+| MKdelta.
+
+Fixpoint kw_get (k : string) (l : list (string * kwv)) : option kwv :=
+  match l with [] => None | (k', v) :: r => if String.eqb k k' then Some v else kw_get k r end.
+
+Definition is_bool (v : kwv) := match v with KVtrue | KVfalse => true | _ => false end.
+Definition truthy (o : option kwv) := match o with Some KVtrue | Some KVlist | Some KVdict => true | _ => false end.
+
+Definition rtb_key_ok (kv : string * kwv) : bool :=
+  let (k, v) := kv in
+  if String.eqb k "prior" then match v with KVnone => true | KVstr s => String.eqb s "uniform" | _ => false end
+  else if String.eqb k "rescale_bounds" then match v with KVnone | KVlist | KVdict => true | _ => false end
+  else if String.eqb k "boundary_inversion" then match v with KVnone | KVtrue | KVfalse | KVlist | KVdict => true | _ => false end
+  else if String.eqb k "detect_edges" then is_bool v
+  else if String.eqb k "inversion_type" then match v with KVstr s => String.eqb s "split" || String.eqb s "duplicate" | _ => false end
+  else if String.eqb k "detect_edges_kwargs" then match v with KVnone | KVdict => true | _ => false end
+  else if String.eqb k "offset" then is_bool v
+  else if String.eqb k "update_bounds" then is_bool v
+  else if String.eqb k "pre_rescaling" then true
+  else if String.eqb k "post_rescaling" then true
+  else false.
+
+Definition pre_of_kw (o : option kwv) : option prek :=
+  match o with
+  | None | Some KVnone => Some PreNone
+  | Some (KVstr s) => if String.eqb s "log" then Some PreLog else if String.eqb s "exp" then Some PreExp
+                      else if String.eqb s "logit" then Some PreLogit else None
+  | _ => None
+  end.
+Definition post_of_kw (o : option kwv) : option postk :=
+  match o with
+  | None | Some KVnone => Some PostNone
+  | Some (KVstr s) => if String.eqb s "log" then Some PostLog else if String.eqb s "exp" then Some PostExp
+                      else if String.eqb s "logit" then Some PostLogit else None
+  | _ => None
+  end.
+
+Definition keys_in (allowed : list string) (l : list (string * kwv)) : bool :=
+  forallb (fun kv => existsb (String.eqb (fst kv)) allowed) l.
+
+Definition classify (e : rentry) : option mkind :=
+  let kw := re_kw e in
+  let c := re_class e in
+  if String.eqb c "RescaleToBounds" then
+    if forallb rtb_key_ok kw then
+      match pre_of_kw (kw_get "pre_rescaling" kw), post_of_kw (kw_get "post_rescaling" kw) with
+      | Some pre, Some post =>
+          Some (MKrtb pre post (truthy (kw_get "boundary_inversion" kw)) (truthy (kw_get "offset" kw)))
+      | _, _ => None
+      end
+    else None
+  else if String.eqb c "DistanceReparameterisation" then
+    if forallb (fun kv => rtb_key_ok kv || existsb (String.eqb (fst kv)) ["allowed_bounds"; "allow_both"; "converter_kwargs"]) kw
+    then Some (MKdist (truthy (kw_get "boundary_inversion" kw)) (truthy (kw_get "offset" kw))) else None
+  else if String.eqb c "ScaleAndShift" || String.eqb c "Rescale" then
+    if keys_in ["scale"; "shift"; "estimate_scale"; "estimate_shift"] kw then Some MKscale else None
+  else if String.eqb c "NullReparameterisation" then
+    match kw with [] => Some MKnull | _ => None end
+  else if String.eqb c "Angle" then
+    if keys_in ["scale"; "prior"] kw then Some MKangle else None
+  else if String.eqb c "ToCartesian" then
+    if keys_in ["scale"; "prior"; "mode"] kw then Some MKcart else None
+  else if String.eqb c "AnglePair" then
+    if keys_in ["prior"; "convention"] kw then Some MKpair else None
+  else if String.eqb c "DeltaPhaseReparameterisation" then
+    match kw with [] => Some MKdelta | _ => None end
+  else None.
+
+Definition classified (e : rentry) : bool := match classify e with Some _ => true | None => false end.
+Definition unclassified_names (l : list rentry) : list string :=
+  map re_name (filter (fun e => negb (classified e)) l).
